@@ -7,6 +7,7 @@ mod table;
 mod mddrun;
 mod solve;
 mod sched;
+mod kp;
 
 use std::io::{BufRead, Write};
 
@@ -34,6 +35,7 @@ fn main() {
         "mdd" => mddrun::run(&lines, &mut out),
         "solve" => solve::run(&lines, &mut out),
         "par" => sched::run(&lines, &mut out),
+        "kp" => kp::run(&lines, &mut out),
         _ => { eprintln!("unknown command {cmd}"); std::process::exit(2); }
     }
     out.flush().unwrap();
